@@ -1,13 +1,20 @@
 """Shared dataset / configuration builder for the runtime properties C17, C18, C20 (runs inside the staged interpreter)."""
 
 
-def dataset(seed, n=7, nv=5, classes=2, gap=False):
+def dataset(seed, n=7, nv=5, classes=2, gap=False, ties=False):
     import numpy as np
     r = np.random.RandomState(seed)
     y = np.array([i % classes for i in range(n)])
     r.shuffle(y)
     X = np.round(r.randn(n, 2) * 4) / 4 + y.reshape(-1, 1)
-    X += np.arange(n).reshape(-1, 1) * 1e-3          # distinct rows / distances
+    if ties:
+        # integer features and duplicated rows carrying DIFFERENT labels: validation points exactly equidistant from
+        # differently labelled training rows (whatever order the code gives them must not depend on seed / process)
+        X = np.round(X)
+        for i in range(1, n, 2):
+            X[i] = X[i - 1]
+    else:
+        X += np.arange(n).reshape(-1, 1) * 1e-3      # distinct rows / distances
     yv = np.array(list(range(classes)) + [int(r.randint(0, classes)) for _ in range(nv - classes)])
     r.shuffle(yv)
     Xv = np.round(r.randn(nv, 2) * 4) / 4 + yv.reshape(-1, 1) + 0.0625
@@ -37,6 +44,12 @@ def make_provenance(kind, n):
         return None
     if kind == "grouped":
         return Provenance(data=np.array([i // 2 for i in range(n)], dtype=int))
+    if kind == "named":
+        # units named by STRINGS (hash-seed dependent hashes), one unit per pair of rows, in an order that is neither sorted
+        # nor the hash order
+        names = ["zeta", "alpha", "mu", "beta", "omega", "kappa", "delta", "pi"][: (n + 1) // 2]
+        units = Units(units=names, candidates=2)
+        return Provenance([units[names[i // 2]] == 1 for i in range(n)])
     # join-like: each row needs two units (a "left" and a "right" one)
     nl, nr = 2, (n + 1) // 2
     units = Units(units=nl + nr, candidates=2)
@@ -49,7 +62,10 @@ def score_hex(cfg, hook=None):
     import numpy as np
     from datascope.importance.shapley import ShapleyImportance
     from datascope.importance.utility import SklearnModelAccuracy
-    X, y, Xv, yv = dataset(cfg["data_seed"], n=cfg.get("n", 7), nv=cfg.get("nv", 5), classes=cfg.get("classes", 2))
+    X, y, Xv, yv = dataset(cfg["data_seed"], n=cfg.get("n", 7), nv=cfg.get("nv", 5), classes=cfg.get("classes", 2),
+                           ties=bool(cfg.get("ties")))
+    if cfg.get("ties"):
+        Xv = np.round(Xv)
     util = SklearnModelAccuracy(make_model(cfg["model"]))
     kw = dict(cfg.get("kw", {}))
     imp = ShapleyImportance(method=cfg["method"], utility=util, seed=cfg["seed"], **kw)
